@@ -1,7 +1,10 @@
 (* Property C17 — position / term arithmetic is consistent, including term-id
-   wrap-around.  Statements only; proofs are in Proofs/DescriptorProofs.v. *)
-Require Import V.Base.MachineInt V.Generated.GenConsts V.Model.Descriptor
-               V.Proofs.DescriptorProofs V.Oracle.C17Oracle V.Proofs.C17OracleProofs.
+   wrap-around.  Statements only; proofs are in Proofs/DescriptorProofs.v (hand-written model) and
+   Proofs/GenDescriptorProofs.v (theorems C17_src_...: the same statements for the functions that
+   tools/props/c17_translate.py translates from the Rust source on every run, Generated/GenDescriptor.v). *)
+Require Import V.Base.MachineInt V.Base.MachineInt2 V.Generated.GenConsts V.Model.Descriptor
+               V.Proofs.DescriptorProofs V.Oracle.C17Oracle V.Proofs.C17OracleProofs
+               V.Generated.GenDescriptor V.Proofs.GenDescriptorProofs.
 Open Scope Z_scope.
 
 (* position from (term id, offset) = elapsed terms x term length + offset *)
@@ -92,6 +95,131 @@ Theorem C17_oracle_rotate : forall m init n s,
 Proof. exact oracle_rotate_model. Qed.
 Print Assumptions C17_oracle_rotate.
 
+(* ------------------------------------------------------------------------------------------
+   The same statements for the functions translated from the source (K1).  `src_f m args` is the
+   Gallina reading of the body of the Rust function f as it is in the repository under check today:
+   operand types, checked / wrapping operators, casts, shifts, masks and constants included. *)
+
+Theorem C17_src_position : forall m init n bits off,
+  in_i32 init = true -> 0 <= n < two31 -> 0 <= bits <= 31 -> 0 <= off <= 2 ^ bits ->
+  src_compute_position m (wrap32 (init + n)) off bits init = Ok (n * 2 ^ bits + off).
+Proof. exact src_compute_position_spec. Qed.
+Print Assumptions C17_src_position.
+
+Theorem C17_src_begin : forall m init n bits,
+  in_i32 init = true -> 0 <= n < two31 -> 0 <= bits <= 31 ->
+  src_compute_term_begin_position m (wrap32 (init + n)) bits init = Ok (n * 2 ^ bits + 0).
+Proof. exact src_compute_term_begin_position_spec. Qed.
+Print Assumptions C17_src_begin.
+
+Theorem C17_src_partition_agree : forall m init n bits off,
+  in_i32 init = true -> 0 <= n < two31 -> 0 <= bits <= 31 -> 0 <= off < 2 ^ bits ->
+  src_index_by_term m init (wrap32 (init + n)) = Ok (n mod 3) /\
+  src_index_by_term_count m n = Ok (n mod 3) /\
+  src_index_by_position m (n * 2 ^ bits + off) bits = Ok (n mod 3).
+Proof. exact src_partitions_agree. Qed.
+Print Assumptions C17_src_partition_agree.
+
+Theorem C17_src_header_position : forall m init n bits off len,
+  in_i32 init = true -> 0 <= n < two31 -> 5 <= bits <= 30 ->
+  0 <= off -> 0 < len -> off mod 32 = 0 -> off + align len 32 <= 2 ^ bits ->
+  src_header_position m init bits (wrap32 (init + n)) off len = Ok (n * 2 ^ bits + off + align len 32).
+Proof. exact src_header_position_spec. Qed.
+Print Assumptions C17_src_header_position.
+
+(* a raw tail splits back into the term id and the (capped) offset it was packed from *)
+Theorem C17_src_tail_split : forall m t o term_length,
+  in_i32 t = true -> 0 <= o < two32 -> 0 <= term_length < two31 ->
+  src_term_id m (raw_tail_of_term t + o) = Ok t /\
+  src_term_offset m (raw_tail_of_term t + o) term_length = Ok (Z.min o term_length).
+Proof. exact src_tail_split. Qed.
+Print Assumptions C17_src_tail_split.
+
+(* next / previous partition stay inside 0..2 and undo each other *)
+Theorem C17_src_partition_step : forall m i, 0 <= i < 3 ->
+  src_next_partition_index m i = Ok ((i + 1) mod 3) /\
+  src_previous_partition_index m i = Ok ((i + 2) mod 3) /\
+  (j <- src_next_partition_index m i ;; src_previous_partition_index m j) = Ok i.
+Proof. exact src_partition_step. Qed.
+Print Assumptions C17_src_partition_step.
+
+(* align to a power of two = checked add of 2^k - 1, then round down to a multiple of 2^k *)
+Theorem C17_src_align : forall m v k, 0 <= k <= 30 ->
+  src_align m v (2 ^ k) = (s <- add32 m v (2 ^ k - 1) ;; Ok (s / 2 ^ k * 2 ^ k)).
+Proof. exact src_align_pow2. Qed.
+Print Assumptions C17_src_align.
+
+Theorem C17_src_max_message_length : forall m bits, 16 <= bits <= 30 ->
+  src_compute_max_message_length m (2 ^ bits) = Ok (Z.min (2 ^ (bits - 3)) (2 ^ 24)).
+Proof. exact src_max_message_length_spec. Qed.
+Print Assumptions C17_src_max_message_length.
+
+Theorem C17_src_rotate : forall m init n s,
+  in_i32 init = true -> 0 <= n < two31 - 1 -> meta_consistent init n s ->
+  exists s', src_rotate_log m s n (wrap32 (init + n)) = Ok s' /\
+    count s' = n + 1 /\
+    get_tail s' ((n + 1) mod 3) = raw_tail_of_term (wrap32 (init + n + 1)) /\
+    (forall j, 0 <= j < 3 -> j <> (n + 1) mod 3 -> get_tail s' j = get_tail s j).
+Proof. exact src_rotate_log_spec. Qed.
+Print Assumptions C17_src_rotate.
+
+Theorem C17_src_rotate_idempotent : forall m init n s s',
+  in_i32 init = true -> 0 <= n < two31 - 1 -> meta_consistent init n s ->
+  src_rotate_log m s n (wrap32 (init + n)) = Ok s' -> src_rotate_log m s' n (wrap32 (init + n)) = Ok s'.
+Proof. exact src_rotate_log_idempotent. Qed.
+Print Assumptions C17_src_rotate_idempotent.
+
+(* the hand-written model of Model/Descriptor.v (the one the differential run executes) and the source
+   agree on the whole typed domain: every i32 / i64 argument, shift amounts 0..63 *)
+Theorem C17_src_model_agree : forall m,
+  (forall init active, src_index_by_term m init active = Ok (index_by_term init active)) /\
+  (forall c, src_index_by_term_count m c = Ok (index_by_term_count c)) /\
+  (forall p bits, 0 <= bits < 64 -> src_index_by_position m p bits = Ok (index_by_position p bits)) /\
+  (forall a off bits init, 0 <= bits < 64 -> src_compute_position m a off bits init = compute_position m a off bits init) /\
+  (forall a bits init, 0 <= bits < 64 ->
+     src_compute_term_begin_position m a bits init = Ok (compute_term_begin_position a bits init)) /\
+  (forall raw, src_term_id m raw = Ok (term_id_of raw)) /\
+  (forall raw tl, src_term_offset m raw tl = Ok (term_offset_of raw tl)) /\
+  (forall i, src_next_partition_index m i = next_partition_index m i) /\
+  (forall i, src_previous_partition_index m i = previous_partition_index m i) /\
+  (forall v, src_align m v GenConsts.FRAME_ALIGNMENT = align32 m v) /\
+  (forall init bits tid off len, 0 <= bits < 64 ->
+     src_header_position m init bits tid off len = header_position m init bits tid off len) /\
+  (forall s c t, src_rotate_log m s c t = rotate_log m s c t).
+Proof. exact src_model_agree. Qed.
+Print Assumptions C17_src_model_agree.
+
+(* a shift amount outside 0..63 panics in a Debug build (the hand-written model leaves that case out) *)
+Theorem C17_src_shift_panics : forall a off bits init, ~ 0 <= bits < 64 ->
+  src_compute_position Debug a off bits init = Panic /\ src_index_by_position Debug a bits = Panic.
+Proof. exact src_shift_panics. Qed.
+Print Assumptions C17_src_shift_panics.
+
+(* the oracle is true on what the source computes *)
+Theorem C17_src_oracle_position : forall m init n bits off,
+  in_i32 init = true -> 0 <= n < two31 -> 0 <= bits <= 31 -> 0 <= off <= 2 ^ bits ->
+  holds_position init n bits off
+    (src_compute_position m (wrap32 (init + n)) off bits init)
+    (src_compute_term_begin_position m (wrap32 (init + n)) bits init)
+    (src_index_by_term m init (wrap32 (init + n)))
+    (src_index_by_term_count m n)
+    (src_index_by_position m (n * 2 ^ bits + off) bits) = true.
+Proof. exact src_oracle_position. Qed.
+Print Assumptions C17_src_oracle_position.
+
+Theorem C17_src_oracle_header : forall m init n bits off len,
+  in_i32 init = true -> 0 <= n < two31 -> 5 <= bits <= 30 ->
+  0 <= off -> 0 < len -> off mod 32 = 0 -> off + align len 32 <= 2 ^ bits ->
+  holds_header init n bits off len (src_header_position m init bits (wrap32 (init + n)) off len) = true.
+Proof. exact src_oracle_header. Qed.
+Print Assumptions C17_src_oracle_header.
+
+Theorem C17_src_oracle_rotate : forall m init n s,
+  in_i32 init = true -> 0 <= n < two31 - 1 -> meta_consistent init n s ->
+  holds_rotate init n s (src_rotate_log m s n (wrap32 (init + n))) = true.
+Proof. exact src_oracle_rotate. Qed.
+Print Assumptions C17_src_oracle_rotate.
+
 (* non-vacuity: a wrapped term id satisfies the hypotheses and gives the expected numbers *)
 Example C17_wrap_example :
   compute_position Debug (wrap32 (2147483647 + 5)) 96 16 2147483647 = Ok (5 * 65536 + 96)
@@ -99,4 +227,12 @@ Example C17_wrap_example :
   /\ meta_consistent 2147483647 1
        {| tail0 := raw_tail_of_term (wrap32 (2147483647 + 3 - 3)) ; tail1 := raw_tail_of_term (wrap32 (2147483647+1)) + 4096;
           tail2 := raw_tail_of_term (wrap32 (2147483647 + 2 - 3)) + 77; count := 1 |}.
+Proof. repeat split; vm_compute; reflexivity. Qed.
+
+Example C17_src_wrap_example :
+  src_compute_position Debug (wrap32 (2147483647 + 5)) 96 16 2147483647 = Ok (5 * 65536 + 96)
+  /\ src_index_by_position Release (5 * 65536 + 96) 16 = Ok 2
+  /\ src_header_position Debug 2147483647 16 (wrap32 (2147483647 + 5)) 64 100 = Ok (5 * 65536 + 64 + 128)
+  /\ src_term_id Debug (raw_tail_of_term (-2147483644) + 4096) = Ok (-2147483644)
+  /\ src_compute_position Debug 7 0 64 7 = Panic.
 Proof. repeat split; vm_compute; reflexivity. Qed.
